@@ -197,12 +197,59 @@ def sem_calls(body):
         return cached
     by_create = {aw.create_bb: aw for aw in awaits(body) if aw.create_bb is not None}
     out = []
+    by_bb = {}
     for bb, t in body.calls():
         if is_await_plumbing(t):
             continue
-        out.append(SemCall(body, bb, t, by_create.get(bb)))
+        c = SemCall(body, bb, t, by_create.get(bb))
+        out.append(c)
+        by_bb[bb] = c
+    # future wrappers (`fut.instrument(span)`, `Box::pin(fut)`): the await of the wrapper is the await of
+    # the wrapped call
+    for c in out:
+        if c.awaited and c.is_(*FUTURE_WRAPPERS):
+            inner = wrapped_call(body, c, by_bb)
+            while inner is not None:
+                if not inner.awaited:
+                    inner.aw = c.aw
+                    inner.awaited = True
+                    inner.done_bb = c.done_bb
+                    inner.result = c.result
+                    inner.wrapper = c
+                if not inner.is_(*FUTURE_WRAPPERS):
+                    break
+                inner = wrapped_call(body, inner, by_bb)
     body._sem = out
+    body._sem_by_bb = by_bb
     return out
+
+
+FUTURE_WRAPPERS = ("tracing::instrument::Instrument::instrument", "tracing::instrument::Instrument::in_current_span",
+                   "alloc::boxed::Box::pin", "core::pin::Pin::new")
+
+
+def wrapped_call(body, c, by_bb):
+    if not c.args:
+        return None
+    p = op_place(c.args[0])
+    if p is None:
+        return None
+    ch = trace_back(body, p.local)
+    cur, d = ch[-1]
+    if d is not None and d[0] == "call":
+        return by_bb.get(d[1])
+    return None
+
+
+def unwrap_future(body, c):
+    """innermost call behind future wrappers"""
+    sem_calls(body)
+    by_bb = body._sem_by_bb
+    seen = 0
+    while c is not None and c.is_(*FUTURE_WRAPPERS) and seen < 6:
+        c = wrapped_call(body, c, by_bb)
+        seen += 1
+    return c
 
 
 def calls_to(body, *names):
@@ -790,60 +837,69 @@ def deep_calls(body, operand):
 
 
 def deep_locals(body, operand):
-    """all locals in the full backward closure of an operand (every call is transparent in all args)"""
+    """all locals in the full backward closure of an operand (every call is transparent in all args).
+    Returns (locals, params) where params are (param local, first field index or None) pairs, so that
+    different upvars of a closure/coroutine environment stay distinct."""
     start = op_place(operand) if not isinstance(operand, Place) else operand
     if start is None:
         return set(), set()
     seen = set()
     params = set()
-    work = [start.local]
+
+    def visit(place):
+        if place is None:
+            return
+        if 1 <= place.local <= body.arg_count:
+            ff = None
+            for e in place.proj:
+                if isinstance(e, list) and e[0] == "f":
+                    ff = e[1]
+                    break
+            params.add((place.local, ff))
+            if ff is not None:
+                return          # a specific upvar / field of a parameter: do not merge with its siblings
+        work.append(place.local)
+
+    work = []
+    visit(start)
+    if not work and not params:
+        work.append(start.local)
     aw = {a.result: a for a in awaits(body) if a.result is not None} if body.kind == "coroutine" else {}
+    push_like = ("push", "push_back", "push_front", "insert", "extend", "append")
     while work:
         l = work.pop()
         if l in seen:
             continue
         seen.add(l)
-        if 1 <= l <= body.arg_count:
-            params.add(l)
         for d in body.defs_of(l):
             if d[0] == "assign":
                 rv = d[3]
                 for key in ("op", "a", "b"):
-                    p = op_place(rv.get(key)) if isinstance(rv.get(key), dict) else None
-                    if p is not None:
-                        work.append(p.local)
+                    if isinstance(rv.get(key), dict):
+                        visit(op_place(rv.get(key)))
                 if "place" in rv:
-                    work.append(rv["place"][0])
+                    visit(Place(rv["place"]))
                 for x in rv.get("ops", []):
-                    p = op_place(x)
-                    if p is not None:
-                        work.append(p.local)
+                    visit(op_place(x))
             elif d[0] == "call":
                 for a in d[3]["args"]:
-                    p = op_place(a)
-                    if p is not None:
-                        work.append(p.local)
+                    visit(op_place(a))
         for bb, k, pl, rv, st in body.assigns():
-            if pl.local == l and pl.proj:
-                for key in ("op",):
-                    p = op_place(rv.get(key)) if isinstance(rv.get(key), dict) else None
-                    if p is not None:
-                        work.append(p.local)
+            if pl.local == l and pl.proj and isinstance(rv.get("op"), dict):
+                visit(op_place(rv.get("op")))
         # values pushed into a collection held in l: `Vec::push(&mut l, x)` etc.
         for bb, t in body.calls():
-            if t["args"]:
+            if len(t["args"]) > 1 and fname(t["func"]).rsplit("::", 1)[-1] in push_like:
                 p0 = op_place(t["args"][0])
-                if p0 is not None and p0.local in seen and len(t["args"]) > 1 and \
-                        fname(t["func"]).rsplit("::", 1)[-1] in ("push", "push_back", "insert", "extend"):
+                if p0 is None:
+                    continue
+                base = trace_back(body, p0.local)[-1][0]
+                if base == l or p0.local == l:
                     for a in t["args"][1:]:
-                        p = op_place(a)
-                        if p is not None:
-                            work.append(p.local)
+                        visit(op_place(a))
         if l in aw and aw[l].create is not None:
             for a in aw[l].create["args"]:
-                p = op_place(a)
-                if p is not None:
-                    work.append(p.local)
+                visit(op_place(a))
     return seen, params
 
 
@@ -935,7 +991,7 @@ def selects(body):
                                 cur, d = ch[-1]
                 if d is not None and d[0] == "call":
                     creator = [y for y in sc if y.bb == d[1]]
-                    creator = creator[0] if creator else None
+                    creator = unwrap_future(body, creator[0]) if creator else None
             s.branches.append(creator)
         # arms: switch on the discriminant of the select output
         s.out_local = c.result
@@ -1029,7 +1085,10 @@ def take_events(body, extra_commit_takes=()):
         for tk in takes:
             g = guarded_by(body, cm.bb, tk.result, "some", tk.done_bb)
             if g is not None:
-                evs.append(TakeEvent("commit", cm.done_bb, tk.result,
+                # the take becomes durable somewhere *inside* the commit await (the database worker may
+                # complete a COMMIT whose future was dropped), so the item counts as taken from the
+                # moment the commit is issued
+                evs.append(TakeEvent("commit", cm.bb, tk.result,
                                      "commit after %s" % tk.name.rsplit("::", 1)[-1], cm.loc()))
     return evs
 
